@@ -96,7 +96,8 @@ MODULE_EXT = re.compile(r"\.(mod|xm|it|s3m|stm|mtm|669|far|ult|okt|med|mmd[0-3]|
 
 
 def pick_modules(ck, n):
-    files = [f for f in vlib.corpus_files() if os.path.getsize(f) < 300000 and MODULE_EXT.search(f)]
+    # test-dev/data/f holds malformed files (loader regression inputs): they mostly fail to load
+    files = [f for f in vlib.corpus_files() if os.path.getsize(f) < 300000 and MODULE_EXT.search(f) and "/data/f/" not in f]
     must = [REPO_DATA("storlek_01.it"), REPO_DATA("ode2ptk.mod"), REPO_DATA("scan_240_seq.it"), REPO_DATA("pattern_loop_liq.liq"),
             os.path.join(vlib.REPO, "test", "test.xm"), os.path.join(vlib.REPO, "test", "test.it")]
     must = [f for f in must if os.path.exists(f)]
